@@ -26,7 +26,9 @@ ORIGINS = {
     "tz": pd.Timestamp("2021-03-01", tz="Asia/Kolkata"),
     "dst": pd.Timestamp("2021-04-03 20:00", tz="Australia/Sydney"),   # DST ends 2021-04-04 03:00 local
     "utc": pd.Timestamp("2021-03-01", tz="UTC"),
+    "dts": pd.Timestamp("2021-03-01"),      # naive datetimes kept at SECOND resolution (datetime64[s] index); unit = 1 s
 }
+UNIT_NS = {"dts": 10**9}
 
 
 class Dom:
@@ -41,28 +43,30 @@ class Dom:
             return float(x)
         if n == "int":      # integer labels for the step points; bounds / query points may fall between them
             return int(x) if F(x).denominator == 1 else float(x)
+        u = UNIT_NS.get(n, 3600 * 10**9)
         if n == "td":
-            return pd.Timedelta(seconds=float(F(x) * 3600))
-        return ORIGINS[n] + pd.Timedelta(seconds=float(F(x) * 3600))
+            return pd.Timedelta(int(F(x) * u), unit="ns")
+        return ORIGINS[n] + pd.Timedelta(int(F(x) * u), unit="ns")
 
     def delta(self, d):
         if self.name in ("float",):
             return float(d)
         if self.name == "int":
             return int(d) if F(d).denominator == 1 else float(d)
-        return pd.Timedelta(seconds=float(F(d) * 3600))
+        return pd.Timedelta(int(F(d) * UNIT_NS.get(self.name, 3600 * 10**9)), unit="ns")
 
     def back(self, lab):
         n = self.name
         if n in ("float", "int"):
             return F(float(lab)) if not isinstance(lab, (int, np.integer)) else F(int(lab))
+        u = UNIT_NS.get(n, 3600 * 10**9)
         if n == "td":
-            return F(pd.Timedelta(lab).value, 3600 * 10**9)
+            return F(pd.Timedelta(lab).as_unit("ns").value, u)
         ts = pd.Timestamp(lab)
         o = ORIGINS[n]
         if ts.tzinfo is None and o.tzinfo is not None:
             ts = ts.tz_localize("UTC")  # numpy datetime64 values are UTC instants
-        return F((ts - o).value, 3600 * 10**9)
+        return F((ts - o).as_unit("ns").value, u)
 
     def length_back(self, x):
         """a length / integral factor in domain units -> Fraction"""
@@ -77,9 +81,10 @@ class Dom:
             pass
         if isinstance(x, (float, np.floating)):
             return num(x)          # e.g. the 0.0 integral of a function without finite defined piece
+        u = UNIT_NS.get(self.name, 3600 * 10**9)
         if isinstance(x, (int, np.integer)):
-            return F(int(x), 3600 * 10**9)      # nanoseconds from timedelta64.tolist()
-        return F(pd.Timedelta(x).value, 3600 * 10**9)
+            return F(int(x), u)      # nanoseconds from timedelta64[ns].tolist()
+        return F(pd.Timedelta(x).as_unit("ns").value, u)
 
 
 def num(x):
@@ -197,6 +202,8 @@ class Runner:
             ser = pd.Series([self.nanv(v) for _, v in rows], index=[self.dom.to(k) for k, _ in rows], dtype=float)
             if self.dom.name == "int":
                 ser.index = ser.index.astype("int64")
+            if self.dom.name == "dts":
+                ser.index = pd.DatetimeIndex(ser.index).as_unit("s")      # a coarser-than-nanosecond index (pandas 2 keeps it)
             return sc.Stairs.from_values(self.nanv(init), ser, closed=closed)
         if route == "maskroute" or (anynan and route == "arith"):
             # defined skeleton (NaN pieces filled with 0) built by layering, undefined pieces masked afterwards
@@ -215,6 +222,8 @@ class Runner:
             return st
         # NaN-free: layering routes
         ks = [self.dom.to(k) for k, _ in rows]
+        if self.dom.name == "dts":      # second-resolution scalars / arrays / columns
+            ks = [k.as_unit("s") for k in ks]
         prev = init
         deltas = []
         for _, v in rows:
@@ -230,7 +239,7 @@ class Runner:
         elif route == "tuple":
             st.layer(tuple(ks), None, tuple(deltas))
         elif route == "ndarray":
-            st.layer(np.array(ks), None, np.array(deltas))
+            st.layer(np.array(ks, dtype="datetime64[s]") if self.dom.name == "dts" else np.array(ks), None, np.array(deltas))
         elif route == "series":
             idx = list(range(100, 100 + len(ks)))[::-1]
             st.layer(pd.Series(ks, index=idx), None, pd.Series(deltas, index=idx).values)
